@@ -173,6 +173,7 @@ class Sub2(ForeignBase):
 class Outer(ComplexModel):
     __namespace__ = TNS
     n = Integer
+    skipme = Unicode(exc=True)          # excluded from (de)serialisation, deliberately not the last member
     inner = Inner
     sub = Sub
     sub2 = Sub2
@@ -210,6 +211,12 @@ PRIM_VALUES = [
 ]
 
 
+def _shared():
+    """The same (acyclic) instance referenced from several slots."""
+    p = Inner(x=3, s='shared', t='tt')
+    return Outer(n=7, inner=p, items=[p, p, Inner(x=4)], must=1, sub=Sub(x=1, extra=2))
+
+
 def outer_values():
     return [
         Outer(n=1, inner=Inner(x=1, s='a', t='attr'), items=[Inner(x=1, s='a'), Inner(x=2)], tags=['p', 'q'],
@@ -218,6 +225,7 @@ def outer_values():
         Outer(must=None),
         Outer(n=0, inner=Inner(), items=[], tags=[], must=0, sub=Sub(extra=0)),
         Outer(n=-5, items=[Inner(x=None, s=''), Inner(x=2 ** 64, s=u'\xe9', t='')], tags=['only'], code=0, must=1),
+        _shared(),
     ]
 
 
@@ -247,6 +255,12 @@ def _services(got):
         @rpc()
         def nothing(ctx):
             got.append(('nothing', (), ctx.in_header))
+
+        @rpc(_returns=[Outer, Array(Inner)])
+        def shared(ctx):
+            got.append(('shared', (), ctx.in_header))
+            o = _shared()
+            return o, [o.inner] * 3
 
         @rpc(Outer, _returns=Outer, _body_style='bare')
         def bare(ctx, o):
@@ -284,13 +298,13 @@ def _mk_roundtrip(family, validator):
         inp, outp = _proto(family, validator)
         app = Application([_services(got)], TNS, name='VApp', in_protocol=inp, out_protocol=outp)
         wsgi = WsgiApplication(app)
-        meth = c.choose(['prims', 'struct', 'arrays', 'nothing', 'bare', 'outbare'], 'method')
+        meth = c.choose(['prims', 'struct', 'arrays', 'nothing', 'bare', 'outbare', 'shared'], 'method')
         d = app.interface.service_method_map['{%s}%s' % (TNS, meth)][0]
         if meth == 'prims':
             vals = PRIM_VALUES[c.choose(list(range(len(PRIM_VALUES))), 'values')]
             args = [vals[k] for k, _ in PRIMS]
         elif meth in ('struct', 'bare'):
-            args = [outer_values()[c.choose([0, 1, 2, 3], 'values')]]
+            args = [outer_values()[c.choose([0, 1, 2, 3, 4], 'values')]]
         elif meth == 'arrays':
             args = list(ARRAY_VALUES[c.choose(list(range(len(ARRAY_VALUES))), 'values')])
         elif meth == 'outbare':
@@ -384,7 +398,11 @@ def _mk_roundtrip(family, validator):
             c.check('response_denotes_returned_value', xmlref.norm(T, dec) == xmlref.norm(T, ret),
                     detail=(xmlref.norm(T, dec), xmlref.norm(T, ret)))
         else:
-            for (k, t), ret in zip(out_ti.items(), args):
+            rets = args
+            if meth == 'shared':
+                o = _shared()
+                rets = [o, [o.inner] * 3]
+            for (k, t), ret in zip(out_ti.items(), rets):
                 dec = xmlref.decode_from(rmsg, t, k, TNS)
                 c.check('response_denotes_returned_value', xmlref.norm(t, dec) == xmlref.norm(t, ret),
                         detail=(k, xmlref.norm(t, dec), xmlref.norm(t, ret), etree.tostring(rmsg)[:300]))
@@ -444,7 +462,7 @@ def _mk_client(family):
             args = [vals[k] for k, _ in PRIMS]
             types = [t for _, t in PRIMS]
         elif meth == 'struct':
-            args = [outer_values()[c.choose([0, 1, 2, 3], 'values')]]
+            args = [outer_values()[c.choose([0, 1, 2, 3, 4], 'values')]]
             types = [Outer]
         else:
             args = list(ARRAY_VALUES[c.choose(list(range(len(ARRAY_VALUES))), 'values')])
